@@ -51,16 +51,16 @@ class CookieJar(AbstractCookieJar):
         re.ASCII,
     )
 
-    DATE_HMS_TIME_RE = re.compile(r"(\d{1,2}):(\d{1,2}):(\d{1,2})", re.ASCII)
+    DATE_HMS_TIME_RE = re.compile(r"(\d{1,2}):(\d{1,2}):(\d{1,2})(?!\d)", re.ASCII)
 
-    DATE_DAY_OF_MONTH_RE = re.compile(r"(\d{1,2})", re.ASCII)
+    DATE_DAY_OF_MONTH_RE = re.compile(r"(\d{1,2})(?!\d)", re.ASCII)
 
     DATE_MONTH_RE = re.compile(
         "(jan)|(feb)|(mar)|(apr)|(may)|(jun)|(jul)|(aug)|(sep)|(oct)|(nov)|(dec)",
         re.I | re.ASCII,
     )
 
-    DATE_YEAR_RE = re.compile(r"(\d{2,4})", re.ASCII)
+    DATE_YEAR_RE = re.compile(r"(\d{2,4})(?!\d)", re.ASCII)
 
     # calendar.timegm() fails for timestamps after datetime.datetime.max
     # Minus one as a loss of precision occurs when timestamp() is called.
@@ -583,6 +583,10 @@ class CookieJar(AbstractCookieJar):
             return None
 
         if year < 1601 or hour > 23 or minute > 59 or second > 59:
+            return None
+
+        if day > calendar.monthrange(year, month)[1]:
+            # No such date (30 Feb): the attribute is void, not the next month
             return None
 
         return calendar.timegm((year, month, day, hour, minute, second, -1, -1, -1))
